@@ -100,11 +100,24 @@ impl GraphBlock {
                 .map(|line| inlines_to_markdown(line, options))
                 .collect::<Vec<String>>()
                 .join("\n"),
-            GraphBlock::CodeBlock(lang, text) => lang
-                .clone()
-                .filter(|lang| !lang.trim().is_empty())
-                .map(|lang| format!("``` {}\n{}\n```\n", lang, text.trim_matches('\n')))
-                .unwrap_or_else(|| format!("```\n{}\n```\n", text.trim_matches('\n'))),
+            GraphBlock::CodeBlock(lang, text) => {
+                // the fence is longer than any run of backticks in the body, so that a line of
+                // backticks inside the code does not close the block
+                let longest_run = text
+                    .split(|c| c != '`')
+                    .map(|run| run.len())
+                    .max()
+                    .unwrap_or(0);
+                let fence = "`".repeat(std::cmp::max(3, longest_run + 1));
+                lang.clone()
+                    .filter(|lang| !lang.trim().is_empty())
+                    .map(|lang| {
+                        format!("{} {}\n{}\n{}\n", fence, lang, text.trim_matches('\n'), fence)
+                    })
+                    .unwrap_or_else(|| {
+                        format!("{}\n{}\n{}\n", fence, text.trim_matches('\n'), fence)
+                    })
+            }
             GraphBlock::RawBlock(_, text) => text.clone(),
             GraphBlock::BlockQuote(blocks) => {
                 blocks_to_markdown_sparce(blocks, options)
